@@ -12,6 +12,7 @@ package main
 // call waits until the goroutines it spawned have finished), which is the order the model uses.
 
 import (
+	"crypto/tls"
 	"context"
 	"crypto/x509"
 	"encoding/json"
@@ -54,6 +55,7 @@ type c02Policy struct {
 	OD    string     `json:"od"`              // none | decision | allow
 	Sched [][]string `json:"sched,omitempty"` // decision: names permitted at the k-th evaluation since the policy was set (last entry repeats)
 	Allow []string   `json:"allow,omitempty"`
+	Mgr   bool       `json:"mgr,omitempty"` // an external certificate manager (OnDemand.Managers) is configured
 }
 
 type c02Op struct {
@@ -65,9 +67,11 @@ type c02Op struct {
 	Name    string     `json:"name,omitempty"`
 	Cert    int        `json:"cert,omitempty"` // certificate id (1-based index into Certs)
 	KeyComp bool       `json:"keycomp,omitempty"`
+	Mgr     string     `json:"mgr,omitempty"` // hs: answer of the external manager: "" (nil, nil) | cert (certificate Cert) | err
 }
 
 type c02Case struct {
+	Fallback string       `json:"fallback,omitempty"` // cfg.FallbackServerName
 	Policy c02Policy     `json:"policy"`
 	Cap    int           `json:"cap"`
 	Certs  []c02CertSpec `json:"certs"`
@@ -109,6 +113,30 @@ type c02Env struct {
 	parent    map[int64]int64 // goroutine -> goroutine that spawned it (handshake-spawned goroutines)
 	stuck     []string
 	unsafeMap map[string]string // Safe(name) -> name
+	mgrAns    string            // answer of the external manager during the current handshake
+	mgrCert   *tls.Certificate
+}
+
+// c02Manager is the external certificate manager double (certmagic.Manager).
+type c02Manager struct{ e *c02Env }
+
+func (m c02Manager) GetCertificate(ctx context.Context, hello *tls.ClientHelloInfo) (*tls.Certificate, error) {
+	e := m.e
+	name, err := certmagic.VerifNameFromClientHello(e.cfg, hello)
+	if err != nil {
+		name = "?" + hello.ServerName
+	}
+	e.b.Log.Begin(doubles.Op{Inst: "i1", Kind: "Manager", Key: name})
+	e.mu.Lock()
+	ans, c := e.mgrAns, e.mgrCert
+	e.mu.Unlock()
+	switch ans {
+	case "cert":
+		return c, nil
+	case "err":
+		return nil, errors.New("manager double: no")
+	}
+	return nil, nil
 }
 
 const c02IssuerKey = "dbl"
@@ -282,6 +310,9 @@ func (e *c02Env) setPolicy(p c02Policy) {
 			}
 		}
 	}
+	if p.Mgr && e.cfg.OnDemand != nil {
+		e.cfg.OnDemand.Managers = []certmagic.Manager{c02Manager{e}}
+	}
 }
 
 func c02NewEnv(cs *c02Case) (*c02Env, error) {
@@ -296,7 +327,7 @@ func c02NewEnv(cs *c02Case) (*c02Env, error) {
 		}
 		return certmagic.ErrNoRetry{Err: errors.New("issuer double: refused")}
 	}
-	tmpl := certmagic.Config{OCSP: certmagic.OCSPConfig{DisableStapling: true}}
+	tmpl := certmagic.Config{OCSP: certmagic.OCSPConfig{DisableStapling: true}, FallbackServerName: cs.Fallback}
 	e.cfg, e.cache = doubles.NewConfig(e.b.Handle("i1"), tmpl, certmagic.CacheOptions{Capacity: cs.Cap}, e.iss)
 	ctx := context.Background()
 	for i, sp := range cs.Certs {
@@ -402,6 +433,8 @@ func c02WaitQuiet() bool {
 type c02HsObs struct {
 	Name     *string       `json:"name"` // normalised name (nil: error)
 	Hit      int           `json:"hit"`  // certificate id matched in the cache (0: none)
+	Default  int           `json:"default,omitempty"` // certificate id "defaulted" by the cache lookup (0: none)
+	Mgr      string        `json:"mgr,omitempty"`     // what the managers would answer: none | empty | cert | err
 	Gs       [][]c02Effect `json:"effects"`
 	Res      string        `json:"res"` // cert | empty | err
 	ResID    int           `json:"res_id,omitempty"`
@@ -483,6 +516,8 @@ func (e *c02Env) project(ops []doubles.Op, fg int64) [][]c02Effect {
 					ef = &c02Effect{Kind: "load", Name: n}
 				}
 			}
+		case "Manager":
+			ef = &c02Effect{Kind: "manager", Name: o.Key}
 		case "IssueStart":
 			// key "<issuer>:[name]"
 			n := strings.TrimSuffix(strings.TrimPrefix(o.Key, c02IssuerKey+":["), "]")
@@ -555,10 +590,33 @@ func (e *c02Env) handshake(op c02Op) (*c02HsObs, error) {
 			e.noteName("*")
 		}
 	}
-	if c, matched, _ := certmagic.VerifCacheLookup(e.cfg, hello); matched {
+	if c, matched, defaulted := certmagic.VerifCacheLookup(e.cfg, hello); matched {
 		obs.Hit = c02IDOfSerial(c.Serial)
+	} else if defaulted {
+		obs.Default = c02IDOfSerial(c.Serial)
 	}
 	e.mu.Lock()
+	obs.Mgr = "none"
+	e.mgrAns, e.mgrCert = "", nil
+	if e.pol.Mgr && e.pol.OD != "none" {
+		obs.Mgr = "empty"
+		switch op.Mgr {
+		case "cert":
+			if op.Cert < 1 || op.Cert > len(e.certs) {
+				e.mu.Unlock()
+				return nil, fmt.Errorf("manager certificate %d does not exist", op.Cert)
+			}
+			mc := e.certs[op.Cert-1]
+			kp, err := tls.X509KeyPair(mc.chainPEM, mc.keyPEM)
+			if err != nil {
+				e.mu.Unlock()
+				return nil, err
+			}
+			obs.Mgr, e.mgrAns, e.mgrCert = "cert", "cert", &kp
+		case "err":
+			obs.Mgr, e.mgrAns = "err", "err"
+		}
+	}
 	e.issueOK = op.IssueOK
 	e.vanish = op.Vanish
 	e.lastLoad = ""
@@ -707,7 +765,7 @@ func c02EncPolicy(e *emit.Enc, p c02Policy, base int) {
 	}
 }
 
-var c02EffTag = map[string]int{"decision": 0, "exists": 2, "load": 3, "meta": 4, "issue": 5, "selfwait": 7}
+var c02EffTag = map[string]int{"decision": 0, "exists": 2, "load": 3, "meta": 4, "issue": 5, "selfwait": 7, "manager": 8}
 
 func c02EncEffects(e *emit.Enc, gs [][]c02Effect) {
 	e.Len(len(gs))
@@ -810,6 +868,23 @@ func c02RunCase(w *emit.Writer, cs *c02Case, desc map[string]any) error {
 			} else {
 				body.Bool(false)
 			}
+			if o.Default > 0 {
+				body.Bool(true).Int(o.Default)
+			} else {
+				body.Bool(false)
+			}
+			switch o.Mgr {
+			case "empty":
+				body.Int(1)
+			case "cert":
+				body.Int(2).Int(op.Cert)
+			case "err":
+				body.Int(3)
+			default:
+				body.Int(0)
+			}
+			w.Hist("mgr=" + o.Mgr)
+			w.Hist(fmt.Sprintf("defaulted=%v", o.Default > 0))
 			body.Bool(op.IssueOK).Bool(op.Vanish)
 			c02EncEffects(body, o.Gs)
 			switch o.Res {
@@ -1133,6 +1208,59 @@ func c02Run(tier string, seed int64, outdir string, replay string) error {
 			}
 		}
 	}
+	// ---- FallbackServerName: a "defaulted" certificate is served where the miss path ends without one ----
+	fb := c02CertSpec{Names: []string{"fallback.example"}, Class: "valid", Cached: true}
+	for _, v := range views {
+		if !strings.HasPrefix(v.name, "miss-") {
+			continue
+		}
+		for _, pn := range polNames {
+			for _, ok := range []bool{true, false} {
+				for _, full := range []bool{false, true} {
+					if full && pn != "none" {
+						continue
+					}
+					certs := append(append([]c02CertSpec(nil), v.certs...), fb)
+					capN := 0
+					if full {
+						capN = 20
+						certs = append(certs, c02Fillers(17)...)
+					}
+					cs := c02Single(pols[pn], capN, certs, N, ok)
+					cs.Fallback = "fallback.example"
+					if err := run(cs, map[string]any{"class": "fallback", "view": v.name, "policy": pn, "issue_ok": ok, "almost_full": full}); err != nil {
+						return err
+					}
+				}
+			}
+		}
+	}
+	// ---- external managers (OnDemand.Managers): asked before the policy, on a miss only ----
+	mgrCert := c02CertSpec{Names: []string{N}, Class: "valid"}
+	for _, v := range views {
+		switch v.name {
+		case "miss-absent", "miss-stored-valid", "miss-stored-expired", "hit-valid", "hit-due", "hit-expired-nostore", "hit-unmanaged":
+		default:
+			continue
+		}
+		for _, pn := range []string{"decision-yes", "decision-no", "decision-flip", "allow-in", "allow-out", "none"} {
+			for _, ans := range []string{"", "cert", "err"} {
+				for _, ok := range []bool{true, false} {
+					if !ok && ans != "" {
+						continue
+					}
+					certs := append(append([]c02CertSpec(nil), v.certs...), mgrCert)
+					p := pols[pn]
+					p.Mgr = true
+					cs := c02Single(p, 0, certs, N, ok)
+					cs.Ops[0].Mgr, cs.Ops[0].Cert = ans, len(certs)
+					if err := run(cs, map[string]any{"class": "manager", "view": v.name, "policy": pn, "issue_ok": ok, "mgr_answer": "a:" + ans}); err != nil {
+						return err
+					}
+				}
+			}
+		}
+	}
 	w.Meta.Exhaustive = true
 	w.Meta.Universe = fmt.Sprintf("%d abstract single-handshake cases = %d certificate views (miss/stored/cached x valid/due/expired x revoked/key-compromise x in-storage/missing, multi-SAN, stale ARI) x %d policy shapes x issuer ok/fails x cache almost full or not (where relevant)", nAbstract, len(views), len(polNames))
 
@@ -1206,6 +1334,17 @@ func c02Run(tier string, seed int64, outdir string, replay string) error {
 		// a spare certificate another instance may store later
 		cs.Certs = append(cs.Certs, c02CertSpec{Names: []string{"foo.example"}, Class: "valid", Managed: true})
 		spare := len(cs.Certs)
+		// sometimes: an external manager, a fallback certificate
+		mgrID := 0
+		if rr.Intn(3) == 0 {
+			cs.Policy.Mgr = true
+			cs.Certs = append(cs.Certs, c02CertSpec{Names: []string{"foo.example", "bar.example"}, Class: "valid"})
+			mgrID = len(cs.Certs)
+		}
+		if rr.Intn(3) == 0 {
+			cs.Fallback = "fallback.example"
+			cs.Certs = append(cs.Certs, c02CertSpec{Names: []string{"fallback.example"}, Class: "valid", Cached: true})
+		}
 		nOps := 3 + rr.Intn(5)
 		for j := 0; j < nOps; j++ {
 			switch k := rr.Intn(10); {
@@ -1239,6 +1378,21 @@ func c02Run(tier string, seed int64, outdir string, replay string) error {
 			}
 		}
 		cs.Ops = append(cs.Ops, c02Op{Kind: "hs", SNI: names[rr.Intn(2)], IssueOK: true})
+		if mgrID > 0 {
+			for j := range cs.Ops {
+				switch cs.Ops[j].Kind {
+				case "hs":
+					switch rr.Intn(4) {
+					case 0:
+						cs.Ops[j].Mgr, cs.Ops[j].Cert = "cert", mgrID
+					case 1:
+						cs.Ops[j].Mgr = "err"
+					}
+				case "policy":
+					cs.Ops[j].Policy.Mgr = rr.Intn(3) != 0
+				}
+			}
+		}
 		if err := run(cs, map[string]any{"class": "history", "len": len(cs.Ops)}); err != nil {
 			return err
 		}
